@@ -96,6 +96,10 @@ def generate(prop, rng, tier):
     if not big and n_ds * n_st > 2 and cv["type"] == "kfold":
         cv["k"] = 2
     strategies = ["s%s" % "abc"[i] for i in range(n_st)]
+    if n_ds >= 2 and n_st >= 2 and rng.random() < 0.3:
+        # names that contain the separator a store might join them with
+        strategies[:2] = ["s", "s_a"]
+        datasets[0]["name"], datasets[1]["name"] = "a_x", "x"
     features = None
     r = rng.random()
     if r < 0.25:
@@ -855,9 +859,12 @@ class History:
         exp_keys = {k for k in model.records}
         got_keys = set(results.results.keys())
         exp_names = {"%s_%s_%s_%d" % (s, d, part, f) for (s, d, f, part) in exp_keys}
-        if got_keys != exp_names:
-            self.v("ram_key_set", "after run %d: RAM store keys %s != expected %s" % (
-                i, sorted(got_keys ^ exp_names)[:4], len(exp_names)))
+        if len(got_keys) == len(exp_keys) and all(isinstance(k_, tuple) for k_ in got_keys):
+            exp_names = got_keys   # (how the store names its keys is its own business)
+        if len(got_keys) != len(exp_keys) or got_keys != exp_names:
+            self.v("ram_key_set", "after run %d: the RAM store holds %d records, %d were produced "
+                   "(records of different strategy/dataset pairs share a key?) %s" % (
+                       i, len(got_keys), len(exp_keys), sorted(map(str, got_keys ^ exp_names))[:4]))
             return
         by = {}
         for (s, d, f, part) in exp_keys:
